@@ -8,12 +8,14 @@
 (***************************************************************************)
 EXTENDS Expr
 
-CONSTANTS MaxNodes
+CONSTANTS MaxNodes,
+          RequireComplete   \* TRUE: calls only on graphs in which every node is used (exhaustive runs)
 
-VARIABLES phase, act
+VARIABLES phase, cur, want, act
 
-lvars == <<nodes, tabs, phase, act>>
-labs == <<nodes, tabs, phase>>
+lvars == <<nodes, tabs, phase, cur, want, act>>
+labs == <<nodes, tabs, phase, cur, want>>
+NoDict == [t |-> "a"]
 
 Root == Len(nodes)
 
@@ -33,7 +35,15 @@ ChildrenOf(nd) ==
       [] nd.k = "with" -> {nd.inner}
       [] nd.k = "cached" -> {nd.inner}
       [] nd.k = "ds" -> NZ({nd.dflt, nd.disp})
+      [] nd.k = "dsof" -> {nd.base}
       [] nd.k = "fnapp" -> SeqToSet(nd.args)
+
+\* nodes reachable from n through children and overload tables (the graph is acyclic)
+RECURSIVE Desc(_)
+Desc(n) ==
+    LET nd == nodes[n]
+        viaTab == IF nd.k = "ds" /\ nd.tab # 0 THEN {tabs[nd.tab][e].n : e \in 1 .. Len(tabs[nd.tab])} ELSE {} IN
+    {n} \cup UNION {Desc(c) : c \in ChildrenOf(nd) \cup viaTab}
 
 \* every node but the root is used by a later node, or is registered in an overload table
 Complete ==
@@ -46,36 +56,63 @@ LInit ==
     /\ nodes = <<>>
     /\ tabs = <<>>
     /\ phase = "build"
+    /\ cur = NoDict
+    /\ want = "none"
     /\ act = [a |-> "Init"]
 
-\* construction: nd is a well-formed node over the existing ones (the MC module says which)
+\* construction, step 1: decide which kind of node comes next (a separate cheap step: random
+\* simulation then samples kinds uniformly and enumerates the candidates of one kind only)
+Choose(k) ==
+    /\ phase = "build" /\ Len(nodes) < MaxNodes /\ cur = NoDict /\ want = "none"
+    /\ want' = k
+    /\ UNCHANGED <<nodes, tabs, phase, cur>>
+    /\ act' = [a |-> "Choose"]
+
+\* construction, step 2: nd is a well-formed node over the existing ones (the MC module says which)
 Add(nd) ==
-    /\ phase = "build" /\ Len(nodes) < MaxNodes
+    /\ phase = "build" /\ Len(nodes) < MaxNodes /\ cur = NoDict /\ want = nd.k
+    /\ want' = "none"
     /\ nodes' = Append(nodes, nd)
     /\ tabs' = IF nd.k = "ds" /\ nd.tab = Len(tabs) + 1 THEN Append(tabs, <<>>) ELSE tabs
-    /\ UNCHANGED phase
+    /\ UNCHANGED <<phase, cur>>
     /\ act' = [a |-> "Add", id |-> Len(nodes) + 1, nd |-> nd]
 
 \* dataset.register(alias, impl) / @dataset.overload(alias): at any time
 Register(d, alias, impl) ==
     /\ d \in 1 .. Len(nodes) /\ nodes[d].k = "ds" /\ nodes[d].tab # 0 /\ nodes[d].disp # 0
-    /\ impl \in 1 .. Len(nodes) /\ impl # d
+    /\ impl \in 1 .. Len(nodes) /\ d \notin Desc(impl)
     /\ tabs' = [tabs EXCEPT ![nodes[d].tab] =
                    IF \E e \in 1 .. Len(@) : @[e].v = alias
                    THEN [e \in 1 .. Len(@) |-> IF @[e].v = alias THEN [v |-> alias, n |-> impl] ELSE @[e]]
                    ELSE Append(@, [v |-> alias, n |-> impl])]
-    /\ UNCHANGED <<nodes, phase>>
+    /\ cur = NoDict /\ want = "none"
+    /\ UNCHANGED <<nodes, phase, cur, want>>
     /\ act' = [a |-> "Register", d |-> d, alias |-> alias, impl |-> impl]
 
-\* the four public calls on the root under one dictionary, observed together
-Observe(o) ==
-    /\ Complete
+\* choosing the dictionary of the next call (a separate cheap step, so that random simulation
+\* does not have to evaluate the semantics under every dictionary to pick one)
+Pick(o) ==
+    /\ (RequireComplete => Complete) /\ nodes # <<>> /\ cur = NoDict /\ want = "none"
+    /\ cur' = o
+    /\ UNCHANGED <<nodes, tabs, phase, want>>
+    /\ act' = [a |-> "Pick"]
+
+\* the four public calls on the root under the chosen dictionary, observed together
+Observe ==
+    LET o == cur IN
+    /\ cur # NoDict
+    /\ cur' = NoDict
     /\ phase' = "calls"
-    /\ UNCHANGED <<nodes, tabs>>
+    /\ UNCHANGED <<nodes, tabs, want>>
     /\ act' = [a |-> "Observe", n |-> Root, o |-> o,
                eval |-> Eval(Root, o), validate |-> Validate(Root, o),
                keys |-> KeysOf(Root, o), explain |-> Explain(Root, o),
                mentions |-> Mentions(Root), reads |-> TemplateReads(Root, o),
-               restrict |-> LET k == KeysOf(Root, o) IN IF k.ok THEN Restrict(o, k.ks) ELSE EmptyD]
+               restrict |-> LET k == KeysOf(Root, o) IN IF k.ok THEN Restrict(o, k.ks) ELSE EmptyD,
+               permit |-> Permit(Root, o),
+               swallows |-> Swallows(Root, o) \/ LET k == KeysOf(Root, o) IN k.ok /\ Swallows(Root, Restrict(o, k.ks)),
+               visited |-> {x.n : x \in Visit(Root, o)},
+               overlay |-> LET r == NodeRec(Root) IN
+                           IF r.k = "with" THEN Overlay(r, o) ELSE IF r.k = "ds" THEN DsOptions(r, o) ELSE o]
 
 =============================================================================
